@@ -8,6 +8,8 @@ import (
 	"ti/lexer"
 )
 
+const maxEosReads = 256
+
 func (p *Parser) getToken() {
 	if p.ungetFlg {
 		p.ungetFlg = false
@@ -153,6 +155,14 @@ func (p *Parser) Read() (*base.T, error) {
 		}
 
 	case base.EOS:
+		// A construct that is still waiting for its closing token at end of
+		// input keeps asking for tokens: answer with an error instead of nil
+		// forever, so that every such loop ends.
+		p.eosReads++
+		if p.eosReads > maxEosReads {
+			return nil, errors.New("unexpected end of input")
+		}
+
 		return nil, nil
 
 	default:
